@@ -478,7 +478,7 @@ class MultiportILVTMemory(BaseMultiportMemory):
         m.submodules.ilvt = ilvt = self.memory_type(
             shape=shape,
             depth=self.depth,
-            init=self.init,
+            init=[],  # initial contents live in bank 0
             src_loc_at=self.src_loc + 1,
         )
 
